@@ -87,6 +87,33 @@ fn drive_cmd(args: &[String]) -> i32 {
     0
 }
 
+/// bvh debug [steps]: lines from stdin are entered one by one; after each, up to `steps`
+/// single opcodes are executed and every event and state change is printed
+fn debug_cmd(args: &[String]) -> i32 {
+    let steps: usize = args.get(0).and_then(|s| s.parse().ok()).unwrap_or(40);
+    let mut s = session::Session::new();
+    s.drain();
+    for line in std::io::stdin().lock().lines() {
+        let line = line.unwrap();
+        println!("> {}", line);
+        if let Some(ev) = s.enter(&line) {
+            println!("   enter: {:?}", ev);
+            continue;
+        }
+        for i in 0..steps {
+            let p = s.probe();
+            let ev = s.step(1);
+            let q = s.probe();
+            println!("   {:3} {}(pc={} entry={}) -> {}(pc={} entry={} cont={} depth={}) {:?}", i, p.state, p.pc, p.entry_address,
+                     q.state, q.pc, q.entry_address, q.cont, q.stack.len(), ev);
+            if matches!(ev, Some(session::Ev::Stopped) | Some(session::Ev::Input(..)) | Some(session::Ev::Panic(_))) {
+                break;
+            }
+        }
+    }
+    0
+}
+
 fn main() {
     // panics inside the interpreter are data (caught per call); keep stderr quiet
     std::panic::set_hook(Box::new(|_| {}));
@@ -94,6 +121,7 @@ fn main() {
     let code = match args.get(1).map(|s| s.as_str()) {
         Some("replay") => replay(&args[2..]),
         Some("drive") => drive_cmd(&args[2..]),
+        Some("debug") => debug_cmd(&args[2..]),
         _ => {
             eprintln!("usage: bvh replay <cases.ndjson> <result.json>");
             2
